@@ -11,7 +11,7 @@
      pointers: a `struct rtr_mgr_group *` is [option nat] - None = NULL, Some i = the group of the i-th node of the
                list (pointer identity = index identity); a `struct rtr_socket *` is a pair (group index, index in that
                group's array) and is only ever handed on; the `struct rtr_mgr_config *` is the heap itself (there is
-               one; it is not NULL) and disappears as a parameter.
+               one; it is not NULL) and is not passed around.
    EFFECTS
      A translated function is a tree [meff R]:
        MRet r h          it returns r (0 for void) with the heap h;
